@@ -23,6 +23,46 @@ import (
 // and — after a finished attempt — what the attempt's endpoint gained (of the same record: the difference; of a record
 // started since: its numbers).
 func collectorHistory(r *vlib.Rng, nEP, nOps int) map[string]any {
+	return collectorHistoryF(r, nEP, nOps, false)
+}
+
+// busyTargets: how many endpoints have attempts in flight at the moment a clean-up pass runs — the collector's tracking
+// limit (stats.MaxTrackedEndpoints) and its neighbours, powers of two around it, and fleets well above it.
+func busyTargets(nEP int) []int {
+	m := stats.MaxTrackedEndpoints
+	out := []int{}
+	for _, b := range []int{m - 1, m, m + 1, m + 1, m + 2, 63, 64, 65, 2*m - 1, 2 * m, 2*m + 1, 120, 127, 128, 129, 3 * m, 10 * m, nEP - 1, nEP, nEP} {
+		if b >= 1 && b <= nEP {
+			out = append(out, b)
+		}
+	}
+	if len(out) == 0 {
+		out = append(out, nEP)
+	}
+	return out
+}
+
+// permOf: a permutation of 0..n-1 drawn from r (Fisher-Yates).
+func permOf(r *vlib.Rng, n int) []int {
+	p := make([]int, n)
+	for i := range p {
+		p[i] = i
+	}
+	for i := n - 1; i > 0; i-- {
+		j := r.Intn(i + 1)
+		p[i], p[j] = p[j], p[i]
+	}
+	return p
+}
+
+// collectorHistoryF: as collectorHistory; with fleet, the history also contains BUSY-FLEET rounds (round 8): attempts are
+// opened until exactly B endpoints have one in flight (B drawn from busyTargets: around and above the number of
+// endpoints the collector tracks; some endpoints get several attempts, one endpoint sometimes a crowd of them), then
+// the deployment's clock moves past the clean-up interval (durations at and next to the interval and the TTL, written
+// in seconds too), and the pass is triggered the way production triggers it — by the RecordRequest of an attempt that
+// finishes (or, less often, by the accessor) — with all B endpoints busy at that moment; afterwards traffic goes on, or
+// stops (every attempt finishes: all gauges must read 0).  Judged by the same clauses after every operation.
+func collectorHistoryF(r *vlib.Rng, nEP, nOps int, fleet bool) map[string]any {
 	c := stats.NewCollector(vlib.QuietLogger())
 	eps := make([]*domain.Endpoint, nEP)
 	for i := range eps {
@@ -44,28 +84,103 @@ func collectorHistory(r *vlib.Rng, nEP, nOps int) map[string]any {
 	triple := func(t, o, f int64) [3]int64 { return [3]int64{t, o, f} }
 	ops := []map[string]any{}
 	identity := true
+	maxBusy := 0
 	// forced: operations queued by a "round" — one attempt on every endpoint in turn, so that the collector holds a record
 	// for each of them at once (more than it tracks, if there are more than MaxTrackedEndpoints)
+	// kind: "" = finish (e < 0: of any attempt in flight), "open", "age" / "pass" (sec seconds)
 	type forcedOp struct {
 		open bool
 		e    int
+		kind string
+		sec  int
 	}
 	var forced []forcedOp
+	fleets := 0
+	fleetAt := -1
+	if fleet {
+		fleetAt = r.Intn(1 + nOps/6)
+	}
+	queueFleet := func() {
+		fleets++
+		b := vlib.Pick(r, busyTargets(nEP))
+		planned := 0
+		busy := 0
+		for _, n := range inflight {
+			if n > 0 {
+				busy++
+			}
+		}
+		var last int = -1
+		for _, e := range permOf(r, nEP) {
+			if busy >= b {
+				break
+			}
+			if inflight[e] > 0 {
+				continue
+			}
+			n := 1
+			if r.Chance(1, 8) {
+				n = 2 + r.Intn(3)
+			}
+			for i := 0; i < n; i++ {
+				forced = append(forced, forcedOp{open: true, e: e, kind: "open"})
+				planned++
+			}
+			busy++
+			last = e
+		}
+		if r.Chance(1, 6) { // a crowd on one endpoint: in-flight counts around the limits on a single gauge
+			e := r.Intn(nEP)
+			for i, n := 0, vlib.Pick(r, []int{49, 50, 51, 64, 128}); i < n; i++ {
+				forced = append(forced, forcedOp{open: true, e: e, kind: "open"})
+				planned++
+			}
+			last = e
+		}
+		// the silence before the pass: at / next to the clean-up interval (5 min) and the TTL (1 h), in seconds
+		sec := vlib.Pick(r, []int{299, 300, 301, 301, 360, 420, 3540, 3599, 3600, 3601, 3660, 3900, 7200, 15000, 86400, 864000})
+		forced = append(forced, forcedOp{kind: "age", sec: sec})
+		trigger := 0
+		if last >= 0 && !r.Chance(1, 4) {
+			forced = append(forced, forcedOp{e: last}) // production: the pass runs inside this attempt's RecordRequest
+			trigger = 1
+		} else {
+			forced = append(forced, forcedOp{kind: "pass", sec: vlib.Pick(r, []int{0, 1, 300, 3601})})
+		}
+		if r.Chance(1, 2) { // traffic stops: every attempt in flight finishes
+			for i := len(open) + planned - trigger; i > 0; i-- {
+				forced = append(forced, forcedOp{e: -1})
+			}
+		}
+	}
 	for k := 0; k < nOps; k++ {
 		op := map[string]any{}
 		x := r.Intn(20)
 		fe := -1
+		fsec := -1
+		if len(forced) == 0 && fleet && (k == fleetAt || k > fleetAt && r.Chance(1, 40)) {
+			queueFleet()
+		}
 		if len(forced) > 0 {
 			fe = forced[0].e
-			if forced[0].open {
+			switch {
+			case forced[0].kind == "age":
+				x, fsec = 16, forced[0].sec
+			case forced[0].kind == "pass":
+				x, fsec = 19, forced[0].sec
+			case forced[0].open:
 				x = 0
-			} else {
+			default:
 				x = 8
+				if len(open) == 0 {
+					x = 16 // nothing left to finish: a short silence instead
+					fsec = 1
+				}
 			}
 			forced = forced[1:]
 		} else if r.Chance(1, 60) {
 			for e := range eps {
-				forced = append(forced, forcedOp{true, e}, forcedOp{false, e})
+				forced = append(forced, forcedOp{true, e, "open", 0}, forcedOp{false, e, "", 0})
 			}
 		}
 		switch {
@@ -112,14 +227,37 @@ func collectorHistory(r *vlib.Rng, nEP, nOps int) map[string]any {
 			op["row"] = triple(after.TotalRequests, after.SuccessfulRequests, after.FailedRequests)
 		case x < 19:
 			d := vlib.Pick(r, []int{1, 2, 4, 7, 33, 58, 64, 64, 95, 250})
-			stats.VerifAge(c, time.Duration(d)*time.Minute)
-			op["op"], op["min"] = "age", d
+			sec := 0
+			if fsec >= 0 {
+				d, sec = fsec/60, fsec%60
+			} else if fleet {
+				d = vlib.Pick(r, []int{1, 2, 4, 5, 6, 7, 33, 58, 59, 60, 61, 64, 95, 250, 1440, 14400})
+				sec = vlib.Pick(r, []int{0, 0, 0, 1, 59})
+			}
+			stats.VerifAge(c, time.Duration(d)*time.Minute+time.Duration(sec)*time.Second)
+			op["op"], op["min"], op["sec"] = "age", d, sec
 		default:
 			d := vlib.Pick(r, []int{4, 6, 64})
-			stats.VerifCleanupPassAfter(c, time.Duration(d)*time.Minute)
-			op["op"], op["min"] = "pass", d
+			sec := 0
+			if fsec >= 0 {
+				d, sec = fsec/60, fsec%60
+			} else if fleet {
+				d = vlib.Pick(r, []int{0, 4, 5, 6, 59, 60, 61, 64})
+				sec = vlib.Pick(r, []int{0, 0, 1, 59})
+			}
+			stats.VerifCleanupPassAfter(c, time.Duration(d)*time.Minute+time.Duration(sec)*time.Second)
+			op["op"], op["min"], op["sec"] = "pass", d, sec
 		}
 		cs := c.GetConnectionStats()
+		busyNow := 0
+		for _, n := range inflight {
+			if n > 0 {
+				busyNow++
+			}
+		}
+		if busyNow > maxBusy {
+			maxBusy = busyNow
+		}
 		watch := [][3]int64{}
 		for i, e := range eps {
 			if g := cs[e.URLString]; g != 0 || inflight[i] != 0 {
@@ -134,5 +272,5 @@ func collectorHistory(r *vlib.Rng, nEP, nOps int) map[string]any {
 	for _, x := range c.GetEndpointStats() {
 		rows = append(rows, triple(x.TotalRequests, x.SuccessfulRequests, x.FailedRequests))
 	}
-	return map[string]any{"endpoints": nEP, "ops": ops, "final_rows": rows, "identity": identity}
+	return map[string]any{"endpoints": nEP, "ops": ops, "final_rows": rows, "identity": identity, "fleet": fleet, "fleets": fleets, "max_busy": maxBusy}
 }
